@@ -489,8 +489,14 @@ func c03LoadedState(c *eng.Ctx, k *kvAnalysis, rule string) {
 				return
 			}
 			sv := fields[kvField(c.P, "secrets")]
-			fr, base, isF := eng.LoadedField(sv)
 			site := "kv{secrets: " + eng.ValStr(sv) + "}"
+			// (the decrypt-and-decode step may be a helper answering the decoded map)
+			g := f
+			var hcall *ssa.Call
+			if inner, hc := eng.ThroughHelper(sv, func(x *ssa.Function) bool { return eng.IsHelper(f, x) }); inner != nil && hc != nil {
+				sv, g, hcall = inner, eng.Callee(&hc.Call), hc
+			}
+			fr, base, isF := eng.LoadedField(sv)
 			if !isF || !fr.Is("db", dbTypeName(c.P, "persist"), "Secrets") {
 				c.Bad(rule, f, in.Pos(), site, "loaded state is persist.Secrets as decoded from the decrypted database", "secrets = "+eng.ValStr(sv))
 				return
@@ -498,7 +504,7 @@ func c03LoadedState(c *eng.Ctx, k *kvAnalysis, rule string) {
 			// base is the local persist cell; find json.Unmarshal(clear, &persist)
 			okFlow := false
 			detail := "no json.Unmarshal into that value found"
-			eng.Instrs(f, func(in2 ssa.Instruction) {
+			eng.Instrs(g, func(in2 ssa.Instruction) {
 				call, ok := in2.(*ssa.Call)
 				if !ok || !eng.CalleeIs(&call.Call, "encoding/json", "Unmarshal") {
 					return
@@ -510,9 +516,23 @@ func c03LoadedState(c *eng.Ctx, k *kvAnalysis, rule string) {
 				}
 				dec, idx := eng.TupleCall(call.Call.Args[0])
 				if dec != nil && idx == 0 && dec.Call.IsInvoke() && dec.Call.Method.Name() == "Decrypt" {
-					if fr2, _, ok := eng.LoadedField(dec.Call.Args[0]); ok && fr2.Is("db", dbTypeName(c.P, "wrapped"), "DB") {
+					if fr2, _, ok := eng.LoadedField(eng.OriginX(dec.Call.Args[0])); ok && fr2.Is("db", dbTypeName(c.P, "wrapped"), "DB") {
 						// unmarshal error and decrypt error are checked before the literal
-						okFlow = eng.InstrDominates(call, in)
+						if hcall == nil {
+							okFlow = eng.InstrDominates(call, in)
+						} else if svi, isI := sv.(ssa.Instruction); isI {
+							// in the helper: decoded before the map is read; in f: the
+							// helper succeeded before the literal is built
+							okFlow = eng.InstrDominates(call, svi) && eng.InstrDominates(hcall, in)
+							herr := saveErr(hcall)
+							nilErr := false
+							for _, cond := range eng.FactsAt(in) {
+								if v, isNil, isE := cond.ErrCheck(); isE && isNil && eng.Same(v, herr) {
+									nilErr = true
+								}
+							}
+							okFlow = okFlow && nilErr
+						}
 						detail = ""
 					} else {
 						detail = "Decrypt input is " + eng.ValStr(dec.Call.Args[0])
